@@ -229,19 +229,21 @@ def apply_rotation(
         # slice anchor from padded parent_path
         anchor = parent_path[start : start + len_anchor]
 
+    # compute new rotation first: bad input (e.g. overflowing angles) is rejected here,
+    # before the position path is changed in place
+    oldrot = R.from_quat(opath[newstart:end])
+    opath[newstart:end] = (rotation * oldrot).as_quat()
+    new_orientation = R.from_quat(opath)
+
     # position change when there is an anchor
     if anchor is not None:
         ppath[newstart:end] -= anchor
         ppath[newstart:end] = rotation.apply(ppath[newstart:end])
         ppath[newstart:end] += anchor
 
-    # set new rotation
-    oldrot = R.from_quat(opath[newstart:end])
-    opath[newstart:end] = (rotation * oldrot).as_quat()
-
     # store new position and orientation
     # pylint: disable=attribute-defined-outside-init
-    target_object._orientation = R.from_quat(opath)
+    target_object._orientation = new_orientation
     target_object._position = ppath
 
     return target_object
